@@ -108,7 +108,7 @@ def run(ctx):
                     break
         for k, a in items:
             res.case((section, k))
-            if isinstance(a, str) and a.startswith('<raised'):
+            if isinstance(a, str) and a.startswith('<raised') and not section.endswith('_unlisted'):
                 res.violation(f'c18-raises-{section}', f'{section}[{k}]: {a}', {'section': section, 'case': k})
                 break
     check_names(res, base)
